@@ -24,9 +24,10 @@ Open Scope list_scope.
 (* an error location is a position / an ordered span on char boundaries of the text *)
 Definition located (text : str) (l : loc) : Prop :=
   match l with LPos p => boundary text p | LSpan a b => a <= b /\ boundary text a /\ boundary text b end.
-(* `format!("{}", Error::new_from_pos / new_from_span (CustomError{message}, ..))` returns (model of error.rs, C10) *)
+(* `format!("{}", Error::new_from_pos / new_from_span (CustomError{message}, ..))` returns (model of error.rs, C10;
+   fx = which of the two versions of the continued-line code of new_from_span the tree has: both render) *)
 Definition renders (text : str) (l : loc) : Prop :=
-  forall msg, exists out, match l with LPos p => render_pos text p msg = Ok out | LSpan a b => render_span text (a, b) msg = Ok out end.
+  forall fx msg, exists out, match l with LPos p => render_pos text p msg = Ok out | LSpan a b => render_span fx text (a, b) msg = Ok out end.
 
 (* The full statement for one configuration of the code.  For every text and every forest of the shape that the
    meta-parser produces for it: reading, validating and optimizing returns rules or errors (never a panic, never out of
@@ -54,20 +55,26 @@ Theorem C09_total_located : C09_total_located_statement.
 Proof.
   intros st builtins fuel text forest SH out. split; [apply frontend_no_panic; exact SH|]. split.
   - apply (docs_consume_ok text). apply shape_ok_forest. exact SH.
-  - intros l E e He. pose proof (frontend_located st builtins fuel text forest l SH E e He) as L.
-    split; [exact L|]. intros msg. destruct (snd e) as [p|a b].
+  - intros l E e He. pose proof (frontend_located (repaired st) builtins fuel text forest l SH E e He) as L.
+    split; [exact L|]. intros fx msg. destruct (snd e) as [p|a b].
     + apply (top_render_pos_no_panic text p L msg).
-    + destruct L as (L1 & L2 & L3). apply (top_render_span_no_panic text a L2 b L3 L1 msg).
+    + destruct L as (L1 & L2 & L3). apply (top_render_span_no_panic fx text a L2 b L3 L1 msg).
 Qed.
 Definition C09_no_panic_statement : Prop :=
   forall st builtins fuel text forest, shape_ok text forest = true -> frontend (repaired st) builtins fuel text forest <> FPanic.
 Theorem C09_no_panic : C09_no_panic_statement.
 Proof. exact frontend_no_panic. Qed.
+(* every error that ANY configuration of the code reports (shipped, repaired, in between) is located and renders *)
 Definition C09_locations_statement : Prop :=
-  forall st builtins fuel text forest l, shape_ok text forest = true -> frontend (repaired st) builtins fuel text forest = FErrors l ->
-  forall e, In e l -> located text (snd e).
+  forall fl builtins fuel text forest l, shape_ok text forest = true -> frontend fl builtins fuel text forest = FErrors l ->
+  forall e, In e l -> located text (snd e) /\ renders text (snd e).
 Theorem C09_locations : C09_locations_statement.
-Proof. intros st builtins fuel text forest l SH E e He. exact (frontend_located st builtins fuel text forest l SH E e He). Qed.
+Proof.
+  intros fl builtins fuel text forest l SH E e He. pose proof (frontend_located fl builtins fuel text forest l SH E e He) as L.
+  split; [exact L|]. intros fx msg. destruct (snd e) as [p|a b].
+  - apply (top_render_pos_no_panic text p L msg).
+  - destruct L as (L1 & L2 & L3). apply (top_render_span_no_panic fx text a L2 b L3 L1 msg).
+Qed.
 
 (* with the unroller as shipped (only the reader repaired, fixes C09-1..3) the same holds when every repetition count
    of the rules read is at most 2^32 - 3 *)
